@@ -781,6 +781,7 @@ def catalogue(ctx: Ctx, sh: Shared, wl: Any, k: int, only: tuple[str, ...] | Non
             lang = ch.pick(["en", "it", "es"], "lang")
             idx = [ch.draw(2048, "widx") for _ in range(3)]
             fn = lambda lang=lang, idx=idx: (  # noqa: E731
+                wl.language_length(lang),  # asked first: the base every conversion rests on, and the last thing a load publishes
                 mn.mnemonic_from_indexes(idx, lang, wl),
                 mn.indexes_from_mnemonic(mn.mnemonic_from_indexes(idx, lang, wl), lang, wl),
             )
@@ -1085,7 +1086,7 @@ def _threads(ctx: Ctx, rng: SimRng) -> None:
             shrunk_holder.append(shrunk)
             shrunk.__enter__()  # tiny caches and memo bounds while the threads run: eviction paths under interleaving
             ctx.fault("cache-shrink-concurrent", shrink)
-        weights = {"signers": [("pct", 2), ("unif", 6), ("stagger", 1), ("rdv", 2)], "memos": [("pct", 1), ("unif", 1), ("rdv", 8)]}
+        weights = {"signers": [("pct", 2), ("unif", 6), ("stagger", 1), ("rdv", 2)], "memos": [("pct", 1), ("unif", 1), ("rdv", 8)], "wordlists": [("pct", 2), ("unif", 6), ("stagger", 1), ("rdv", 1)]}
         strat_kind = ch.weighted(weights.get(focus, [("pct", 5), ("unif", 3), ("stagger", 2), ("rdv", 2)]), "strategy")
         strategy: dict[str, Any] = {"kind": strat_kind}
         if strat_kind == "pct":
@@ -1227,8 +1228,9 @@ def _rebind(ctx: Ctx, sh: Shared, holder: dict[str, Any], lists: list[list[tuple
 
                 def f(lang: str = lang, idx: list[int] = idx) -> Any:
                     wl = holder["wl"]
+                    n_words = wl.language_length(lang)
                     m = mn.mnemonic_from_indexes(idx, lang, wl)
-                    return (m, mn.indexes_from_mnemonic(m, lang, wl))
+                    return (n_words, m, mn.indexes_from_mnemonic(m, lang, wl))
 
                 new.append((kind, _guard(f)))
             else:
@@ -1249,6 +1251,9 @@ def _plans(tier: str) -> list[Any]:
         Plan("state", {"part": "wallet"}, share=1.5, chunk=20, label="state/wallet"),
         Plan("state", {"part": "indep"}, share=2.0, chunk=10, label="state/indep"),
         Plan("state", {"part": "threads", "every_line": tier == "thorough"}, share=2.5, chunk=10, label="state/threads"),
+        # the lazily loaded word lists alone: runs of this focus cost a fortieth of the others (no curve arithmetic), so a
+        # small share buys thousands of schedules over the one lock-and-publish sequence the library documents a race on
+        Plan("state", {"part": "threads", "every_line": tier == "thorough", "focus": "wordlists"}, share=2.0, chunk=40, label="state/threads-wordlists"),
         # the same, each run in a forked child of a process that never ran anything: cold module state by construction
         Plan("state", {"part": "threads", "every_line": tier == "thorough", "_isolate": True}, share=2.5, chunk=10, label="state/threads-cold-process"),
     ]
